@@ -44,6 +44,7 @@ def repl? : Sexp → Option Repl
   | .atom "sealed" => some .sealed
   | .atom "value" => some .value
   | .list [.atom "newCallable", b] => b.bool?.map .newCallable
+  | .list [.atom "asyncFn", d] => (desc? d).map .asyncFn
   | _ => none
 
 def rkind? : Sexp → Option RKind
@@ -213,7 +214,7 @@ def handleFail (id : Nat) (hdr : List Sexp) (body : List Sexp) : String :=
     | _ => none
   match prod?, style?, obs? with
   | some prod, some style, some impl =>
-    let model := EnterFail.run prod style
+    let model := EnterFail.runCurrent prod style   -- the code as it is: `__enter__` undoes the patch when it fails
     let c := if model == impl then "ok" else "diff"
     let d := if model == impl then "" else (s!"model={repr model} impl={repr impl}".replace "\n" " ")
     let f (s : String) := if s == "ok" then "ok" else "fail:" ++ s
